@@ -269,7 +269,10 @@ def split_v3_case(rng):
     if q < 0.15 and toks: toks = toks[:rng.randrange(len(toks))]
     elif q < 0.20: toks += [num_token(rng, kind), b"junk"]
     sep = rng.choice([b" ", b" ", b"\n", b"  \t", b"\n\n", b" ! c\n"])
-    return head + sep.join(toks) + rng.choice([b"\n", b"", b" ", b" !c", b"\n!c\n"])
+    out = head + sep.join(toks) + rng.choice([b"\n", b"", b" ", b" !c", b"\n!c\n"])
+    if rng.random() < 0.05: out = out.replace(b"\n", b"\r\n")          # DOS line ends: '\r' is white space
+    if rng.random() < 0.03: out = out.replace(b" ", rng.choice([b"\x0b", b"\x0c", b"\xa0", b"\x00"]), 1)
+    return out
 
 
 def split_legacy_case(rng):
